@@ -32,6 +32,7 @@ where
     Ty: EdgeType,
 {
     type Output = SerGraph<'a, N, E, Ix>;
+    /*+*/open spec fn ser_ok(self) -> bool { true }/*-*/
     fn into_serializable(self) -> /*+*/(r:/*-*/ Self::Output/*+*/)
         ensures r.nodes@ == self.nodes@, r.edges@ == self.edges@, r.node_holes@.len() == 0,        // [ser_graph_is_the_whole_graph]
             (r.edge_property is Directed) == Ty::spec_is_directed()/*-*/
